@@ -181,7 +181,7 @@ func c12Run(c *Ctx) {
 func init() {
 	register(&CheckDef{
 		ID: "C12", Build: "light", Run: c12Run, RunCase: c12RunCase,
-		Rule: "states = every reference made of 0..k directory segments from {a, b.c, ., .., a%20b, é, %41, a%2Fb} and a file segment, written relative, root-relative or absolute (file, http, https), with no fragment, a pointer fragment or an empty fragment, against file / http / https / file-with-host bases of depth 0..3; observation = the first URL handed to the document loader by ExpandSchemaWithBasePath on {\"$ref\": ref}; oracle = net/url RFC 3986 resolution of the reference against the base with the fragment removed, compared after section 6.2.2 normalisation; non-trivial = reference with at least one directory segment",
+		Rule:        "states = every reference made of 0..k directory segments from {a, b.c, ., .., a%20b, é, %41, a%2Fb} and a file segment, written relative, root-relative or absolute (file, http, https), with no fragment, a pointer fragment or an empty fragment, against file / http / https / file-with-host bases of depth 0..3; observation = the first URL handed to the document loader by ExpandSchemaWithBasePath on {\"$ref\": ref}; oracle = net/url RFC 3986 resolution of the reference against the base with the fragment removed, compared after section 6.2.2 normalisation; non-trivial = reference with at least one directory segment",
 		Assumptions: []string{"net/url.ResolveReference is the RFC 3986 oracle (independent of the library's own path arithmetic)", "references whose last segment is a directory (., .., trailing slash), empty segments, queries and network-path references are outside the statement and not generated"},
 		MinOutcomes: 1,
 	})
